@@ -6,3 +6,5 @@ import AikenVerif.Props.C16
 import AikenVerif.Props.C08
 import AikenVerif.Props.C20
 import AikenVerif.Props.C11
+import AikenVerif.Props.C12
+import AikenVerif.Props.C18
